@@ -28,6 +28,13 @@ U_PER_DEP = {'spec': 'per.spec', 'dependency': True}
 U_LEMMAS = {'spec': 'lemmas.spec', 'dependency': True}
 U_SCOPE = {'spec': 'scope.spec'}
 U_SCOPE_DEP = {'spec': 'scope.spec', 'dependency': True}
+U_UPER = {'spec': 'uper.spec'}
+UPER_NOT = ['impl Reader for UperReader: read_printable_string, read_visible_string (chunks_exact_mut / try_for_each: iterator adapters)',
+            'impl Writer for UperWriter: write_ia5string, write_numeric_string, write_printable_string, write_visible_string (str::chars() loops)',
+            'descriptor/*.rs one-line ReadableType / WritableType impls except the blanket impl and Option<T>', 'generated write_seq / read_seq / choice content (walker.rs): contract ASSUMED at the trait (sequence::Constraint, choice::Constraint)']
+UPER_TRUSTED = ['R13: Reader / Writer traits instantiated at UperReader<B> / UperWriter (trait impl extracted as inherent impl; `type Error` member dropped; `Self::Error`, `R::Error`, `W::Error` -> Error)',
+                'R21 .map(Some) -> closure; R22 / R24 trusted wrappers for ToOwned::to_owned / PartialEq::ne of the DEFAULT constant; R23 tuple-pattern closure parameter desugared; R3 / R4 wrappers for String::from_utf8 / chars().count()',
+                'assume_specification: Result::and_then (std definition)', 'one exec insertion in write_utf8string: `let verif_bytes = value.as_bytes();` (pure second call, for the ENV-1 axiom)']
 
 PER_ASSUMPTIONS = [
     'trait contracts of BitRead/BitWrite are assumed for the generic T in unit per and proved for every implementation in unit bits',
@@ -72,7 +79,7 @@ PROPS = {
                        'primitives on the compiled crate for all (lb, ub, value) against an executable oracle (complete: loops bounded by operand width).',
     },
     'C06': {
-        'verus': [U_PER, U_BITS_DEP],
+        'verus': [U_PER, U_UPER, U_BITS_DEP],
         'search_groups': ['per', 'charset'],
         'kani_quick': [('charset_is_valid', 120, True)],
         'assumptions': PER_ASSUMPTIONS + ['UperWriter::write_extensible_bit_and_length_or_err and the restricted-string writers (chars() loops) are covered at the PackedWrite level only in this check'],
@@ -82,7 +89,7 @@ PROPS = {
                        'extensible out-of-root values are proved to take the extension form. Charset::is_valid equals the X.680 alphabets for all chars (Kani, complete).',
     },
     'C03': {
-        'verus': [U_SCOPE, U_PER_DEP, U_BITS_DEP],
+        'verus': [U_SCOPE, U_UPER, U_PER_DEP, U_BITS_DEP],
         'search_groups': ['seq'],
         'bounded_search': [('seq', 'all SEQUENCE shapes with n <= 4 components x kinds {mandatory, OPTIONAL, DEFAULT} x marker position x all presence patterns through the real Writer/Reader API against an X.691 reference encoding; cross-version pairs with up to 5 components')],
         'assumptions': [
@@ -113,7 +120,7 @@ PROPS = {
                        'transmitted bitmap, additions j >= k are absent, the cursor moves past all k bitmap bits; without the extension bit every addition is absent. Unbounded in counts and shapes.',
     },
     'C01': {
-        'verus': [U_SCOPE, U_PER, U_BITS_DEP, U_LEMMAS],
+        'verus': [U_UPER, U_SCOPE, U_PER, U_BITS_DEP, U_LEMMAS],
         'search_groups': ['zoo', 'seq', 'per'],
         'bounded_search': [
             ('zoo', 'BOUNDED in programs (6 generated types: extensible SEQUENCE with OPTIONAL last root component, OPTIONAL/DEFAULT/extensible INTEGER mix, extensible ENUMERATED, extensible CHOICE, constrained SEQUENCE OF, nesting) '
@@ -136,7 +143,7 @@ PROPS = {
                        'for the primitives and the protocol and only explores it for whole generated types.',
     },
     'C02': {
-        'verus': [U_PER, U_SCOPE, U_BITS_DEP, U_LEMMAS],
+        'verus': [U_UPER, U_PER, U_SCOPE, U_BITS_DEP, U_LEMMAS],
         'kani_thorough': [('per_cwn', 900, True), ('per_nnbi_constrained', 900, True), ('per_semi', 900, True), ('per_nsnnwn', 900, True),
                           ('per_uwn', 900, True), ('per_2c', 900, True), ('per_length_determinant', 1200, True), ('per_index', 900, True)],
         'search_groups': ['zoo', 'per', 'seq'],
@@ -156,7 +163,7 @@ PROPS = {
                        'executable oracle. Whole generated types are compared with reference encodings on a bounded zoo (labelled stand-in).',
     },
     'C04': {
-        'verus': [U_BITS, U_PER, U_SCOPE],
+        'verus': [U_BITS, U_PER, U_SCOPE, U_UPER],
         'kani_quick': [('der_readers_total', 300, True), ('proto_readers_total', 300, True)],
         'search_groups': ['decode', 'bits'],
         'bounded_search': [('decode', 'SAMPLED (not exhaustive, not a proof): random, truncated and bit-flipped input, aligned and unaligned, declared bit length <= 8*len, through every method of '
